@@ -3,7 +3,7 @@ from . import sched as SC
 
 PROPERTY = "C02"
 META = {
-    "bounds": {"quick": "one loop iteration of each scheduler from an ARBITRARY state fi in [fmin,fmax), N>=8 symbolic and unbounded, all configuration parameters symbolic; start computation: generic k-th iteration from the proved invariant start=k*shift (ltf/lpsd, N unbounded), literal unrolling for N<=12 with unwinding assertion, generic-element array [0,m,m+1,K-1] for the vectorised schedulers (N unbounded); SpectrumAnalyzer.plan() validation on symbolic plans of nf<=2 bins, K<=3",
+    "bounds": {"quick": "one loop iteration of each scheduler from an ARBITRARY state fi in [fmin,fmax), N>=8 symbolic and unbounded, all configuration parameters symbolic; start computation: generic k-th iteration from the proved invariant start=k*shift (ltf/lpsd, N unbounded), literal unrolling for N<=12 with unwinding assertion, generic-element array [0,m,m+1,K-1] for the vectorised schedulers (N unbounded); SpectrumAnalyzer.plan() validation on symbolic plans of nf<=2 bins, K<=3; scheduler resolved from the name 'lpsd' + plan() at N=64 with Lmin symbolic in 1..64",
                "thorough": "literal unrolling for N<=24; whole plans of ltf/lpsd executed path by path (fork mode, every branch and loop test decided per path, budget 80 paths) at N=8, Jdes=1 (power exact), Lmin in {2,4}, fs=1 with olap, bmin, Kdes<=6 symbolic"},
     "outside": ["IEEE ties/rounding in the scheduler arithmetic (exact reals here)", SC.POW_FACTS + " (abstraction of the power; counterexamples are replayed on real plans)",
                 "the lookup grid of vectorized_ltf_plan is abstracted to a generic adjacent pair g0<f<=g1=rho*g0"],
@@ -57,6 +57,10 @@ def ob_plan(W, **kw):
     return SC.ob_plan(W, **kw)
 
 
+def ob_plan_by_name(W, **kw):
+    return SC.ob_plan_by_name(W, **kw)
+
+
 def split(obs, name, fn, params, groups, **kw):
     for gi, pats in enumerate(groups):
         obs.append(dict(kw, name="%s/g%d" % (name, gi), fn=fn, params=params, only=pats))
@@ -86,5 +90,7 @@ def obligations(tier):
     for Ks in ([[1], [2], [3, 1], [2, 2]] if tier == "quick" else [[1], [2], [3], [1, 1], [3, 1], [2, 2], [1, 3], [3, 3]]):
         obs.append({"name": "plan/K%s" % "-".join(map(str, Ks)), "fn": "ob_plan", "params": {"Ks": Ks}, "fork": True, "max_paths": 200, "timeout": to})
     obs.append({"name": "plan/lpsd/K2-1", "fn": "ob_plan", "params": {"Ks": [2, 1], "sched_is_lpsd": True}, "fork": True, "max_paths": 200, "timeout": to})
+    # the scheduler given by name, resolved by the constructor's own code, symbolic Lmin (LPSD is exempt from it)
+    obs.append({"name": "plan/by-name/lpsd", "fn": "ob_plan_by_name", "params": {"name": "lpsd", "N": 64}, "fork": True, "max_paths": 64, "timeout": to})
     whole_plan_obligations(obs, tier, "C02")
     return obs
